@@ -105,6 +105,8 @@ type PathState struct {
 	objCount int
 	clock    int
 	lastClock *term.Term
+	clockConcrete uint64 // >0: time.Now returns concrete instants this far apart (zz.ConcreteClock)
+	clockNow      uint64
 	clockMaxStep uint64 // >0: consecutive clock readings differ by at most this (zz.PacedClock)
 	inHarnessDepth int
 }
